@@ -9,4 +9,4 @@ export GOFLAGS=-mod=mod GOPROXY=off
 repo=${VERIF_REPO:-/repo}
 cd "$root"
 go build -o "$work/instrument" ./cmd/instrument
-"$work/instrument" -repo "$repo" -out "$work/inst" -pkgs network/llmnr,network/netbios/nbtns -shim "$root/shim" -overlay "$work/overlay.json"
+"$work/instrument" -repo "$repo" -out "$work/inst" -pkgs network/llmnr,network/netbios/nbtns,logger -shim "$root/shim" -overlay "$work/overlay.json"
